@@ -1144,8 +1144,7 @@ def run_check(chk, pid):
         "sm_disable flag, session-establishment iq, stream features without <bind/>, user stanza handlers, xmpp_send_raw during "
         "negotiation and xmpp_conn_send_queue_drop_element (C06) are not part of the model",
     ]
-    if pid == "C04" and not any(k.get("id") == KNOWN_ID for k in chk.known):
-        chk.known.append(dict(KNOWN_ENTRY))      # proposed entry, see the builder's report (known_findings.json is not edited here)
+    # (the entry itself lives in known_findings.json; nothing is added to the list at run time)
     chk.known_preds[KNOWN_ID] = lambda rec: rec.get("class") == "lost-after-requeue"
     chk.prove()
     try:
